@@ -4,10 +4,10 @@ id=$1; shift
 cd /repo || exit 2
 if ! git diff --quiet; then echo "/repo has uncommitted changes"; exit 2; fi
 if ! git apply --check /verif/seeded/$id/patch.diff 2>/dev/null; then
-  if ! git apply --3way /verif/seeded/$id/patch.diff >/dev/null 2>&1; then echo "$id: patch does not apply"; git checkout -- . ; exit 3; fi
+  if ! git apply --3way /verif/seeded/$id/patch.diff >/dev/null 2>&1; then echo "$id: patch does not apply"; git reset -q --hard HEAD; exit 3; fi
 else git apply /verif/seeded/$id/patch.diff; fi
 for p in "$@"; do
   out=$(cd /verif && ./check $p --tier ${TIER:-quick} 2>&1); rc=$?
   echo "seed=$id check=$p rc=$rc $(echo "$out" | grep -c '^VIOLATION') violations; $(echo "$out" | grep -m1 'diag:' | cut -c1-200)"
 done
-git checkout -- . ; git reset -q
+git reset -q --hard HEAD
